@@ -156,3 +156,75 @@ fn c20_nonzero_defaults() {
     assert!(v.size() == 2, "C20: size() is not minimal");
     assert!(UEnumD::validate(v.as_bytes()).is_ok(), "C20: default value does not validate");
 }
+
+// ---- probes that need a particular shape rather than a large input
+use core::marker::PhantomData;
+use flatty::portable::{le, Portable};
+use flatty::{FlatString, FlexVec};
+
+struct Probe<T>(PhantomData<T>);
+trait IsPortableYes { fn is_portable(&self) -> bool { true } }
+impl<T: Portable> IsPortableYes for Probe<T> {}
+trait IsPortableNo { fn is_portable(&self) -> bool { false } }
+impl<T> IsPortableNo for &Probe<T> {}
+
+/// C17: `Portable` is implemented only when EVERY field type is Portable (not merely every generic parameter)
+#[kani::proof]
+fn c17_portable_requires_portable_fields() {
+    // autoref specialisation: resolves to the `Portable` impl only if the bound holds
+    assert!(!(&Probe::<Packet<le::U16>>(PhantomData)).is_portable(), "C17: a type with a non-portable field type is Portable");
+    assert!(!(&Probe::<Native<u8>>(PhantomData)).is_portable(), "C17: a type not declared portable is Portable");
+    assert!((&Probe::<PStruct>(PhantomData)).is_portable(), "C17: a well-formed portable type is not Portable");
+    assert!(<PStruct as FlatBase>::ALIGN == 1 && <PUStruct as FlatBase>::ALIGN == 1, "C17: a portable type has ALIGN != 1");
+}
+
+/// C17: a FlexVec with a portable (alignment-1) offset type built by FromIterator is the plain concatenation
+/// slot, item, slot, item, ... with no filler between items, whatever the buffer held before
+#[kani::proof]
+#[kani::unwind(12)]
+fn c17_flex_from_iterator_le16() {
+    // BOUNDED: fixed script (two 1-byte items, then a third), values and prior contents symbolic
+    let mut buf: [u8; 11] = kani::any();
+    let a: u8 = kani::any();
+    let b: u8 = kani::any();
+    {
+        let v = FlexVec::<u8, le::U16>::new_in_place(&mut buf, flatty::flex::FromIterator::new([a, b])).unwrap();
+        assert!(v.len() == 2, "C03: emplaced FlexVec has a different number of items");
+        assert!(v.size() == 6, "C05,C17: size() differs from the padding-free extent");
+    }
+    // reference serialisation: [3,0] a [ff,ff] b   (offset of item 0 = slot 2 + payload 1, little-endian; last item open)
+    assert!(buf[0] == 3 && buf[1] == 0 && buf[2] == a && buf[3] == 0xff && buf[4] == 0xff && buf[5] == b,
+        "C17: image differs from the reference serialisation (padding or byte order)");
+}
+
+/// C11: a FlatString that shrank and grew again (stale bytes of a multi-byte character behind its end) still validates:
+/// validity depends on the first len bytes only
+#[kani::proof]
+#[kani::unwind(12)]
+fn c11_string_shrink_regrow_u16() {
+    // BOUNDED: fixed history on an 8-byte buffer (length type u16: size() is rounded up past the end of the text)
+    let mut back: [u8; 8] = kani::any();
+    kani::assume((back.as_ptr() as usize) % 8 == 0);
+    let s = FlatString::<u16>::default_in_place(&mut back[..8]).unwrap();
+    assert!(s.push('\u{e9}').is_ok(), "C11: a push that fits was refused"); // 2 bytes: c3 a9
+    s.clear();
+    assert!(s.push('a').is_ok(), "C11: a push that fits was refused");      // now "a" followed by the stale a9
+    assert!(s.len() == 1 && s.as_str().as_bytes()[0] == b'a', "C11: contents differ from the String model");
+    assert!(s.size() == 4, "C05: size() differs from the reference extent");
+    assert!(FlatString::<u16>::validate(s.as_bytes()).is_ok(), "C11: a reachable state does not validate");
+}
+
+/// C03: FromIterator emplaces exactly the items the iterator yields, also when its size_hint upper bound is loose
+#[kani::proof]
+#[kani::unwind(12)]
+fn c03_vec_from_filtered_iterator() {
+    // BOUNDED: 6-byte buffer (capacity 4), iterator `(0..8).filter(even)` yields 4 items with size_hint (0, Some(8))
+    let mut back: [u8; 8] = kani::any();
+    kani::assume((back.as_ptr() as usize) % 8 == 0);
+    let base: u8 = kani::any();
+    kani::assume(base < 100);
+    let r = FlatVec::<u8, u16>::new_in_place(&mut back[..6], flatty::vec::FromIterator((0u8..8).filter(|x| x % 2 == 0).map(move |x| x + base)));
+    assert!(r.is_ok(), "C03,C15: content that fits exactly was refused");
+    let v = r.unwrap();
+    assert!(v.len() == 4 && v.as_slice()[0] == base && v.as_slice()[3] == base + 6, "C03: emplaced items differ from the iterator's");
+}
